@@ -434,3 +434,48 @@ def load (lin : α → α → Nat → List α) (toNat : α → Nat) (parse : Str
 end csv
 
 end SparkxVerif.Lattice
+
+/-! ### appended for tie T of C17 (`Gen/Lattice.lean`, regenerated from the source): numpy primitives the
+generated definitions are written over, and hand mirrors of `reset` and of the derived constructor attributes -/
+namespace SparkxVerif.Lattice
+
+/-- `np.searchsorted(values, v, side="left")` on an ascending array: the number of entries below `v` -/
+def searchLeft {α : Type} [LT α] [DecidableLT α] (xs : List α) (v : α) : Nat := xs.countP (fun x => decide (x < v))
+
+/-- `np.ndindex((a, b, c))`: all index triples in C order -/
+def ndindex (a b c : Nat) : List (Nat × Nat × Nat) :=
+  (List.range a).flatMap fun i => (List.range b).flatMap fun j => (List.range c).map fun k => (i, j, k)
+
+/-- `np.mean(grids, axis=0)` for equally long rows: `np.add.reduce` (running sum in list order starting from the
+additive identity) divided by the number of rows -/
+def npMeanAxis0 {β : Type} [NatCast β] [Add β] [Div β] : List (List β) → List β
+  | [] => []
+  | g :: gs => (gs.foldl (fun acc h => List.zipWith (· + ·) acc h) (g.map (fun a => ((0 : Nat) : β) + a))).map
+      (fun s => s / ((gs.length + 1 : Nat) : β))
+
+/-- `reset`: every node value becomes 0 (the code writes `grid_[i, j, k] = 0` for every `np.ndindex` triple) -/
+def Lat.reset {α β : Type} [NatCast β] (L : Lat α β) : Lat α β := { L with grid := L.grid.map (fun _ => ((0 : Nat) : β)) }
+
+section attrs
+variable {α : Type} [LT α] [DecidableLT α] [Sub α] [Neg α] [NatCast α] [Mul α] [Div α]
+
+/-- `cell_volume_ = abs((x_max-x_min)*(y_max-y_min)*(z_max-z_min)/(nx*ny*nz))` -/
+def cellVolume (xmin xmax ymin ymax zmin zmax : α) (nx ny nz : Nat) : α :=
+  absG ((xmax - xmin) * (ymax - ymin) * (zmax - zmin) / ((nx * ny * nz : Nat) : α))
+
+omit [LT α] [DecidableLT α] [Neg α] [NatCast α] [Mul α] [Div α] in
+/-- `spacing_x_ = x_values_[1] - x_values_[0] if num_points_x > 1 else None` -/
+def spacingOf (xs : List α) (n : Nat) : Except Err (Option α) :=
+  if 1 < n then
+    match xs[1]?, xs[0]? with
+    | some a, some b => .ok (some (a - b))
+    | _, _ => .error .index
+  else .ok none
+
+omit [LT α] [DecidableLT α] [Neg α] [Mul α] in
+/-- `density_x_ = (x_max_ - x_min_) / num_points_x_` -/
+def densityOf (lo hi : α) (n : Nat) : α := (hi - lo) / ((n : Nat) : α)
+
+end attrs
+
+end SparkxVerif.Lattice
